@@ -29,3 +29,24 @@ CHECKS["C07"] = {
         {"name": "fs-random", "run": "^TestC07FSRandom$", "kind": "rapid", "checks": {"quick": 4000, "thorough": 160000}, "shards": {"quick": 2, "thorough": 16}},
     ],
 }
+
+CHECKS["C13"] = {
+    "pkg": "props/c13",
+    "level": "exploration",
+    "rule": "rapid-generated operation sequences (1..60 steps quick, 1..200 thorough) on the real standard.Conn over a scripted net.Conn: initial buffer size in {0,1,4096,8192,65536}, "
+            "position-dependent stream of 0..620000 bytes cut by a cyclic fragment pattern (1 B..20 KiB), EOF or timeout end; reader ops Peek/Skip/ReadByte/ReadBinary/Read/Release/Len with sizes around 1 KiB/4 KiB/8 KiB/64 KiB/512 KiB, Len() and remaining; "
+            "writer ops Malloc/WriteBinary/Flush/Write with sizes around the 4 KiB zero-copy threshold and optional write-error injection. "
+            "Non-trivial (reader) = a peek needing >=2 wire reads or >4 KiB, later a Release/Read, later another Peek; (writer) = Malloc and zero-copy WriteBinary mixed between two flushes. Distinct by FNV-64 of (config, op log).",
+    "assumptions": [
+        "callers respect the documented preconditions: Skip(n) only with n <= Len(); peeked slices not examined after Release/Read; WriteBinary buffers unmodified until Flush",
+        "a short Peek may return any (possibly empty) prefix together with an error; the bytes stay readable",
+    ],
+    "level_text": "Model-based random exploration: every operation's result is compared with a plain byte-queue model, Len() with delivered-minus-consumed, every live peeked slice is re-compared after each later step until the next release, and at each Flush the peer must hold exactly the concatenation written so far.",
+    "level_note": "Trusts the byte-queue model and the scripted net.Conn; sequences are sampled, not enumerated; needs hook H1 (NewConnForVerif).",
+    "technique": "stateful property-based testing (rapid) against a byte-queue reference model",
+    "nontrivial_floor": 50,
+    "units": [
+        {"name": "reader", "run": "^TestC13Reader$", "kind": "rapid", "checks": {"quick": 4000, "thorough": 80000}, "shards": {"quick": 8, "thorough": 16}},
+        {"name": "writer", "run": "^TestC13Writer$", "kind": "rapid", "checks": {"quick": 3000, "thorough": 60000}, "shards": {"quick": 4, "thorough": 16}},
+    ],
+}
